@@ -27,6 +27,7 @@ from vsim.valgen import corrupt, ValGen, Unsupported
 
 CODECS = ['ber', 'der', 'per', 'uper', 'oer', 'jer', 'xer', 'gser']
 OP_BUDGET = 1500000
+RUN_REF_TICKS = 1200000
 AMPLIFY_ROUNDS = 60
 threading.stack_size(16 * 1024 * 1024)
 
@@ -495,6 +496,23 @@ class C18(Engine):
                 if outcome[0] != 'hang':
                     expected[index] = outcome
 
+        # Simulated-time cap of a run (a scheduled tick costs 10-50 times a
+        # free-running one): operations beyond it are dropped, in order.
+        cap = RUN_REF_TICKS // (4 if case.get('granularity') == 'opcode'
+                                else 1)
+        spent = 0
+        kept = []
+
+        for index in live:
+            spent += ref_ticks[index]
+
+            if spent > cap and kept:
+                result.stats['ops-dropped-run-tick-cap'] += 1
+                continue
+
+            kept.append(index)
+
+        live = kept
         n_threads = max(1, min(case['threads'], 8))
         total_ref = sum(ref_ticks[i] for i in live)
         per_thread = [[i for i in live if ops[i]['thread'] % n_threads == t]
